@@ -944,15 +944,18 @@ def _focus_search(self, case):
 Batch.focus_search = _focus_search
 
 
-def generate(ctx, batch):
+def generate(ctx, batch, shapes=None, parts=(1, 2, 3), n_random=None, bases=None):
     """random + PCT schedules over the scenario space; every single fault; a
     cancelling / interrupting user at every yield index of a base schedule.
-    Fixed case counts (no time budget): the case set is a function of the seed."""
+    Fixed case counts (no time budget): the case set is a function of the seed.
+    (shapes / parts / n_random / bases restrict it for the sub-checks other
+    properties run on the process-pool front-end.)"""
     rng = ctx.rng('cases')
-    shapes = []
-    for workers in (1, 2, 3):
-        for jobs in ([1], [2], [3], [4], [1, 2], [2, 2], [3, 1], [2, 4]):
-            shapes.append((workers, jobs))
+    if shapes is None:
+        shapes = []
+        for workers in (1, 2, 3):
+            for jobs in ([1], [2], [3], [4], [1, 2], [2, 2], [3, 1], [2, 4]):
+                shapes.append((workers, jobs))
 
     def over():
         return len(ctx.violations) >= 5 or ctx.broken is not None
@@ -960,7 +963,7 @@ def generate(ctx, batch):
     n = 0
     # 1. every single fault, on every shape, under random and PCT schedules
     reps = 4 if ctx.thorough() else 1
-    for (workers, jobs) in shapes:
+    for (workers, jobs) in (shapes if 1 in parts else ()):
         for fault in fault_list(jobs):
             for rep in range(reps):
                 if over():
@@ -973,8 +976,12 @@ def generate(ctx, batch):
     # 2. a cancelling user at every yield index; Ctrl-C at every (second) yield index
     job_mid = {'kind': 'get', 'download': 0, 'job': 0, 'where': 'mid', 'retryable': False, 'times': 1}
     ren = {'kind': 'rename', 'download': 0}
-    bases = [(2, [2], None), (2, [2], job_mid), (2, [2], ren), (2, [2, 2], None), (1, [2], None), (3, [3], None)]
-    if ctx.thorough():
+    own_bases = bases is not None
+    if bases is None:
+        bases = [(2, [2], None), (2, [2], job_mid), (2, [2], ren), (2, [2, 2], None), (1, [2], None), (3, [3], None)]
+    if 2 not in parts:
+        bases = []
+    if ctx.thorough() and not own_bases and bases:
         bases += [(3, [2, 4], None), (2, [1], None), (3, [3], job_mid), (2, [2, 2], ren), (1, [4], None),
                   (2, [3, 1], {'kind': 'alloc', 'download': 1, 'where': 'mid'})]
     for (workers, jobs, fault) in bases:
@@ -995,7 +1002,9 @@ def generate(ctx, batch):
                 batch.run(mk_case(workers, jobs, fault, interrupt=how), spec, 'interrupt')
             batch.validate()
     # 3. more random / PCT schedules with random faults and users
-    for n in range(4000 if ctx.thorough() else 300):
+    if n_random is None:
+        n_random = 4000 if ctx.thorough() else 300
+    for n in range(n_random if 3 in parts else 0):
         if over():
             return
         workers, jobs = rng.choice(shapes)
@@ -1080,6 +1089,33 @@ def run(ctx):
                     {'scenario': c, 'preemption_bound': 2, 'runs': r2, 'complete_within_bound': complete2})
     if ctx.broken is not None:
         search_after_break(ctx)
+
+
+def sub_check(ctx, focus):
+    """The process-pool front-end inside another property's check (C03: faults,
+    C04: liveness under faults and cancels, C18: Ctrl-C / shutdown): the same real
+    protocol code under the scheduler, the same trace validation against
+    Pool.step and the same implementation-only oracle, on a smaller case set.
+    The caller lists props/C19.v among its theorem files."""
+    try:
+        with common.Lock():
+            common.build_locked('C19', EXTRACT, COMPONENTS)
+    except common.BuildBroken as b:
+        if ctx.broken is None:
+            ctx.broken = b
+        return
+    batch = Batch(ctx)
+    small = [(2, [2]), (1, [3]), (3, [1, 2]), (2, [2, 2])]
+    job_mid = {'kind': 'get', 'download': 0, 'job': 0, 'where': 'mid', 'retryable': False, 'times': 1}
+    if focus == 'faults':
+        generate(ctx, batch, shapes=small, parts=(1, 3), n_random=120 if not ctx.thorough() else 1200)
+    elif focus == 'liveness':
+        generate(ctx, batch, shapes=small, parts=(1, 2, 3), n_random=120 if not ctx.thorough() else 1200,
+                 bases=[(2, [2], None), (2, [2], job_mid)])
+    elif focus == 'interrupt':
+        generate(ctx, batch, shapes=small, parts=(2, 3), n_random=80 if not ctx.thorough() else 800,
+                 bases=[(2, [2], None), (2, [2, 2], None), (2, [2], job_mid)])
+    ctx.cov.setdefault('sub_checks', []).append({'front_end': 'process pool (C19 machinery)', 'focus': focus})
 
 
 def search_after_break(ctx):
